@@ -12,7 +12,10 @@ M = [
  ("c04_cycle_gt", "C04", "abstract.py", "has_to_stop = cycle >= max_cycles", "has_to_stop = cycle > max_cycles"),
  ("c04_window_ignores_patience", "C04", "abstract.py", "for diff in self._error_diffs[-patience:]])", "for diff in self._error_diffs[-1:]])"),
  ("c04_lt_for_le", "C04", "abstract.py", "has_to_stop |= current_error <= fitness_error", "has_to_stop |= current_error < fitness_error"),
- ("c05_direct_objective_call", "C05", "grey_wolf/grey_wolf_optimization.py", None, None),
+ ("c05_direct_objective_call", "C05", "grey_wolf/grey_wolf_optimization.py", "            return self._greedy_select_agent(wolf, GreyWolf(**self._init_agent((x1 + x2 + x3) / 3).model_dump()))", "            cand = (x1 + x2 + x3) / 3\n            if self._task.objective_function(cand.tolist()) is None:\n                return wolf\n            return self._greedy_select_agent(wolf, GreyWolf(**self._init_agent(cand).model_dump()))"),
+ ("c06_inplace_float_on_int_array", "C06", "grey_wolf/grey_wolf_optimization.py", "            pos = np.array(wolf.position)\n            a1, a2, a3", "            pos = np.array(wolf.position)\n            pos *= 1.0\n            a1, a2, a3"),
+ ("c15_inplace_position", "C15,C02", "grey_wolf/grey_wolf_optimization.py", "        self._population = [evolve(wolf) for wolf in self._population]\n\n        # best 3", "        self._population = [evolve(wolf) for wolf in self._population]\n        if self._current_cycle % 3 == 0:\n            self._population[-1].position[0] = self._population[0].position[0]\n\n        # best 3"),
+ ("c07_stdlib_random", "C07", "whales/whales_optimization.py", None, None),
  ("c06_max_cycles_minus_one", "C06", "seagull/seagull_optimization.py", None, None),
  ("c07_stdlib_random", "C07", "whales/whales_optimization.py", None, None),
  ("c09_config_inplace", "C09", "harmony_search/harmony_search_optimization.py", None, None),
@@ -23,7 +26,6 @@ M = [
  ("c12_sort_reverse_for_max_inside", "C12,C16", "helpers.py", "    return sort_by_cost(population)[:population_size]", "    return sort_by_cost(population, TaskType.MAX if len(population) % 7 == 0 else TaskType.MIN)[:population_size]"),
  ("c13_round_for_int", "C13,C14", "models.py", "        return int(np.clip(value, lb, ub))", "        return int(round(float(np.clip(value, lb, ub))))"),
  ("c13_len_for_len_minus_one", "C13,C01,C05", "models.py", "        return 0, len(self.choices) - 1", "        return 0, len(self.choices)"),
- ("c15_inplace_position", "C15", "grey_wolf/grey_wolf_optimization.py", None, None),
  ("c16_greedy_inverted", "C16,C17", "abstract.py", "return new_agent if new_agent.cost < agent_copy.cost else agent_copy", "return new_agent if new_agent.cost > agent_copy.cost else agent_copy"),
  ("c16_worst_agents_wrong_end", "C16", "helpers.py", "    return sort_by_cost(population, task_type=task_type)[len(population)-n_worst:]", "    return sort_by_cost(population, task_type=task_type)[:n_worst]"),
  ("c19_skip_last_grid_point", "C19", "hypertuner.py", "        for id_params, params in enumerate(list_params_grid):", "        for id_params, params in enumerate(list_params_grid[:-1] if len(list_params_grid) > 5 else list_params_grid):"),
